@@ -1371,3 +1371,282 @@ Proof.
     * kxe Hk.
   - discriminate.
 Qed.
+Lemma nth_error_map_some : forall A B (f : A -> B) l n y, nth_error (map f l) n = Some y -> exists x, nth_error l n = Some x /\ y = f x.
+Proof. induction l as [|a l IH]; intros [|n] y H; cbn in H; try discriminate. - inversion H; subst. exists a; auto. - eauto. Qed.
+
+Lemma Inv_init : forall v0 cps kps, Inv (init v0 cps kps).
+Proof.
+  intros. 
+  assert (Hc : forall t, cst (init v0 cps kps) t = CIdle).
+  { intro t. unfold cst, init. cbn. destruct (nth_error (map mk_client cps) t) eqn:E; auto.
+    apply nth_error_map_some in E. destruct E as (x & _ & ->). reflexivity. }
+  constructor; cbn.
+  - intros n Hn. unfold nslots in Hn. cbn in Hn. lia.
+  - intro t. unfold thread_ok. rewrite Hc. cbn. split; [constructor|]. split; [intros n []|]. split; [intros n []|]. split; [intros n []|]. intro H; contradiction.
+  - intro i. unfold coro_ok, kstat. cbn. destruct (nth_error (map mk_coro kps) i) eqn:E; auto.
+    apply nth_error_map_some in E. destruct E as (x & _ & ->). cbn. auto.
+  - constructor.
+  - intros n [].
+  - constructor.
+  - intros n [].
+  - intros n [].
+  - intros x [].
+  - reflexivity.
+  - intros x [].
+  - constructor.
+Qed.
+
+Theorem step_inv : forall s t s', Inv s -> step cfg_fixed s t = Some s' -> Inv s'.
+Proof.
+  intros s t s' I H. unfold step in H. destruct (t <? length (clients s))%nat.
+  - destruct (nth_error (clients s) t) eqn:E; [|discriminate]. eapply step_client_inv; eauto.
+  - destruct (nth_error (coros s) (t - length (clients s))) eqn:E; [|discriminate]. eapply step_coro_inv; eauto.
+Qed.
+
+Theorem reachable_inv : forall v0 cps kps s, reachable st (step cfg_fixed) (init v0 cps kps) s -> Inv s.
+Proof.
+  intros v0 cps kps s H. eapply (inv_reachable st (step cfg_fixed) Inv); eauto.
+  - apply Inv_init.
+  - intros. eapply step_inv; eauto.
+Qed.
+(* ------------------------------------------------------------------ consequences of the invariant *)
+Definition owned_pc (p : cpc) : list nat := held_pc p ++ fin_pc p ++ can_pc p.
+
+Lemma inv_one_owner : forall s t1 t2 n, Inv s -> In n (owned_pc (cst s t1)) -> In n (owned_pc (cst s t2)) -> t1 = t2.
+Proof.
+  intros s t1 t2 n I H1 H2. unfold owned_pc in *.
+  destruct (i_thread _ I t1) as (_ & B1 & C1 & D1 & _). destruct (i_thread _ I t2) as (_ & B2 & C2 & D2 & _).
+  rewrite !in_app_iff in H1, H2.
+  destruct H1 as [H1|[H1|H1]]; [destruct (B1 n H1) as [_ E1] | destruct (C1 n H1) as [_ E1] | destruct (D1 n H1) as [_ E1]];
+  (destruct H2 as [H2|[H2|H2]]; [destruct (B2 n H2) as [_ E2] | destruct (C2 n H2) as [_ E2] | destruct (D2 n H2) as [_ E2]]);
+  congruence.
+Qed.
+
+Lemma inv_held_suspended : forall s t n, Inv s -> In n (held_pc (cst s t)) ->
+  kstat s (nco (slot_at s n)) = KSusp (nwi (slot_at s n)) n /\ nex (slot_at s n) = kex s (nco (slot_at s n)).
+Proof.
+  intros s t n I H. destruct (i_thread _ I t) as (_ & B & _). destruct (B n H) as [Hn Hg].
+  pose proof (i_slot _ I n Hn) as S. unfold slot_ok in S. rewrite Hg in S. tauto.
+Qed.
+
+Lemma forallb_nth : forall A (f : A -> bool) l n x, forallb f l = true -> nth_error l n = Some x -> f x = true.
+Proof. intros A f l n x H E. rewrite forallb_forall in H. apply H. eapply nth_error_In; eauto. Qed.
+
+Lemma quiescent_spec : forall s, quiescent s = true ->
+  (forall t, cst s t = CIdle) /\ (forall i, (exists j n, kstat s i = KSusp j n) \/ kstat s i = KDone) /\ mtx s = None.
+Proof.
+  intros s H. unfold quiescent in H. apply andb_prop in H. destruct H as [H H3]. apply andb_prop in H. destruct H as [H1 H2].
+  split; [|split].
+  - intro t. unfold cst. destruct (nth_error (clients s) t) eqn:E; auto.
+    pose proof (forallb_nth _ _ _ _ _ H1 E) as F. unfold client_idle in F. destruct (cpcv c); auto; discriminate.
+  - intro i. unfold kstat. destruct (nth_error (coros s) i) eqn:E; auto.
+    pose proof (forallb_nth _ _ _ _ _ H2 E) as F. unfold coro_quiet in F. destruct (kstv c); try discriminate; eauto.
+  - destruct (mtx s); auto; discriminate.
+Qed.
+
+(* nothing in flight: every slot is free or is the node of a queued, untaken waiter whose coroutine is suspended on
+   it; every suspended coroutine has such a node in the list (so the next wake reaches it) *)
+Lemma inv_quiescent : forall s, Inv s -> quiescent s = true ->
+  (forall n, (n < nslots s)%nat ->
+     In n (freel s) \/
+     (In n (lst s) /\ take_ok s n (nidv (slot_at s n)) = true /\
+      kstat s (nco (slot_at s n)) = KSusp (nwi (slot_at s n)) n)) /\
+  (forall i j n, kstat s i = KSusp j n ->
+     In n (lst s) /\ take_ok s n (nidv (slot_at s n)) = true /\ nco (slot_at s n) = i /\ nwi (slot_at s n) = j).
+Proof.
+  intros s I Q. destruct (quiescent_spec s Q) as (Qc & Qk & Qm).
+  assert (Hv : vis s = lst s) by (rewrite (vis_eq s (lst s) None); auto; apply app_nil_r).
+  assert (Hslot : forall n, (n < nslots s)%nat -> sst (slot_at s n) = SFree \/ sst (slot_at s n) = SQueued).
+  { intros n Hn. pose proof (i_slot _ I n Hn) as S. unfold slot_ok in S. destruct S as (_ & _ & S).
+    destruct (sst (slot_at s n)) as [| | |t|t|t] eqn:E; auto; exfalso.
+    - destruct S as [S _]. destruct (Qk (nco (slot_at s n))) as [(j & m & K)|K]; congruence.
+    - destruct S as [S _]. rewrite Qc in S. discriminate.
+    - destruct S as [S _]. rewrite Qc in S. destruct S.
+    - destruct S as [S _]. rewrite Qc in S. destruct S. }
+  assert (Hq : forall n, (n < nslots s)%nat -> sst (slot_at s n) = SQueued ->
+            In n (lst s) /\ take_ok s n (nidv (slot_at s n)) = true /\
+            kstat s (nco (slot_at s n)) = KSusp (nwi (slot_at s n)) n).
+  { intros n Hn E. pose proof (i_slot _ I n Hn) as S. unfold slot_ok in S. rewrite E in S.
+    destruct S as (_ & _ & S1 & S2 & S3). rewrite Hv in S3. repeat split; auto. apply take_ok_spec. auto. }
+  split.
+  - intros n Hn. destruct (Hslot n Hn) as [E|E].
+    + left. pose proof (i_slot _ I n Hn) as S. unfold slot_ok in S. rewrite E in S. tauto.
+    + right. auto.
+  - intros i j n K. pose proof (i_coro _ I i) as C. unfold coro_ok in C. rewrite K in C. destruct C as (Hn & C1 & C2 & C3).
+    destruct (Hslot n Hn) as [E|E].
+    + exfalso. destruct C3 as [C3|[t [C3|C3]]]; congruence.
+    + destruct (Hq n Hn E) as (A & B & _). auto.
+Qed.
+
+(* a node a waker fails to take is owned by a canceller that has not unlinked it yet *)
+Lemma inv_failed_take : forall s t n, Inv s ->
+  (cst s t = W1Take n \/ exists r taken, cst s t = WATake (n :: r) taken) ->
+  take_ok s n (nidv (slot_at s n)) = false -> exists t', cst s t' = CKLock n.
+Proof.
+  intros s t n I Hp Ht.
+  assert (Hin : In n (vis s)).
+  { destruct (i_thread _ I t) as (_ & _ & _ & _ & E). unfold vis.
+    destruct Hp as [Hp|(r & tk & Hp)]; rewrite Hp in E; rewrite E by discriminate; rewrite Hp; apply in_app_iff; cbn; auto. }
+  destruct (i_vis _ I n Hin) as [Hn [Hq|[t' Hc]]].
+  - exfalso. pose proof (i_slot _ I n Hn) as S. unfold slot_ok in S. rewrite Hq in S. destruct S as (_ & _ & _ & S & _).
+    assert (take_ok s n (nidv (slot_at s n)) = true) by (apply take_ok_spec; auto). congruence.
+  - exists t'. pose proof (i_slot _ I n Hn) as S. unfold slot_ok in S. rewrite Hc in S. tauto.
+Qed.
+
+(* ------------------------------------------------------------------ step-level facts of the repaired code *)
+(* a step of wake_one that ends the call with result 0 leaves an empty waiter list *)
+Lemma wake_one_zero_list_empty : forall s t cl s' cl',
+  nth_error (clients s) t = Some cl -> step_client cfg_fixed s t cl = Some s' ->
+  ((cpcv cl = CIdle /\ nth_error (cprog cl) (copi cl) = Some OWake1) \/ exists n, cpcv cl = W1Take n) ->
+  nth_error (clients s') t = Some cl' -> cres cl' = cres cl ++ [RW1 0] -> lst s' = [].
+Proof.
+  intros s t cl s' cl' Hcl Hst Hpc Hcl' Hres.
+  assert (Hlen : (t < length (clients s))%nat) by (apply nth_error_Some; congruence).
+  assert (Hget : forall X c, clients X = clients s -> nth_error (clients (set_client X t c)) t = Some c).
+  { intros X c HX. unfold set_client. cbn. rewrite HX. apply nth_error_set_nth_eq. exact Hlen. }
+  assert (Hnil : forall (a : list res) x, a = a ++ [x] -> False).
+  { intros a x H. apply (f_equal (@length res)) in H. rewrite app_length in H. cbn in H. lia. }
+  unfold step_client in Hst. destruct Hpc as [[Epc Eop]|[n Epc]]; rewrite Epc in Hst.
+  - rewrite Eop in Hst. destruct (mtx s); [discriminate|]. inversion Hst; subst s'; clear Hst. unfold w1_pop in *.
+    destruct (lst s) as [|n r] eqn:El.
+    + cbn. exact El.
+    + exfalso. rewrite Hget in Hcl' by reflexivity. inversion Hcl'; subst cl'. cbn in Hres. eauto.
+  - destruct (take_ok s n (nidv (slot_at s n))); cbn [cfg_fixed w1_stop_ok w1_stop_fail w1_adv] in Hst.
+    + exfalso. inversion Hst; subst s'; clear Hst. rewrite Hget in Hcl' by reflexivity. inversion Hcl'; subst cl'. cbn in Hres. eauto.
+    + unfold w1_pop in Hst. destruct (lst s) as [|m r] eqn:El.
+      * assert (lst s' = lst s); [|congruence]. destruct (negb (enc (hd_error []) =? 0)); inversion Hst; reflexivity.
+      * exfalso. cbn [hd_error] in Hst. rewrite enc_some_nz in Hst. cbn [negb] in Hst. inversion Hst; subst s'; clear Hst.
+        rewrite Hget in Hcl' by reflexivity. inversion Hcl'; subst cl'. cbn in Hres. eauto.
+Qed.
+
+(* wake_all detaches the whole list under the mutex *)
+Lemma wake_all_detaches : forall s t cl s',
+  step_client cfg_fixed s t cl = Some s' -> cpcv cl = CIdle -> nth_error (cprog cl) (copi cl) = Some OWakeAll -> lst s' = [].
+Proof.
+  intros s t cl s' Hst Epc Eop. unfold step_client in Hst. rewrite Epc, Eop in Hst. destruct (mtx s); [discriminate|].
+  destruct (lst s) eqn:El; inversion Hst; subst s'; cbn; auto.
+Qed.
+
+(* a wait whose value does not match neither suspends nor keeps its slot *)
+Lemma nonmatching_wait : forall s i k j n x tok s',
+  kstv k = KLock j n -> nth_error (kprog k) j = Some (x, tok) -> x <> fv s -> (n < nslots s)%nat ->
+  step_coro cfg_fixed s i k = Some s' ->
+  s' = set_coro (release (take s n SFree) n) i (set_kst k (KReady (S j))) /\ In n (freel s') /\
+  lst s' = lst s /\ tokens s' = tokens s.
+Proof.
+  intros s i k j n x tok s' Ek Ew Hx Hn Hst. unfold step_coro in Hst. rewrite Ek in Hst.
+  destruct (mtx s); [discriminate|]. rewrite Ew in Hst. cbn [cfg_fixed add_when rel_succ rel_fail cb_tok cb_notok] in Hst.
+  destruct (Z.eqb_spec x (fv s)); [contradiction|]. inversion Hst; subst s'. split; auto. cbn. auto.
+Qed.
+
+(* ------------------------------------------------------------------ BasicCancellable: resume(id) vs cancel(id) *)
+Lemma ccall_stale : forall idv b w, cver b <> idv -> ccall idv b w = b.
+Proof. intros. unfold ccall. destruct (Z.eqb_spec (cver b) idv); congruence. Qed.
+Lemma crun_cons : forall idv w calls,
+  crun idv (w :: calls) =
+  {| cver := idv + 1; ccanceled := match w with CCancel => true | CResume => false end; cresumed := 1; cwins := [w] |}.
+Proof.
+  intros. unfold crun. cbn [fold_left]. unfold ccall at 2. cbn. rewrite Z.eqb_refl.
+  set (b := {| cver := idv + 1; ccanceled := _; cresumed := 1; cwins := [w] |}).
+  assert (forall l, fold_left (ccall idv) l b = b).
+  { induction l as [|a l IH]; cbn; auto. rewrite ccall_stale; auto. cbn. lia. }
+  rewrite H. unfold b. destruct w; reflexivity.
+Qed.
+(* whatever the number and order of cancel / resume calls on one id: the awaiter is resumed exactly once (by the
+   first caller), and its result is the empty optional iff that first caller was a cancel *)
+Lemma cancellable_race : forall idv w calls,
+  cresumed (crun idv (w :: calls)) = 1%nat /\ cwins (crun idv (w :: calls)) = [w] /\
+  (cresult_empty (crun idv (w :: calls)) = true <-> w = CCancel).
+Proof.
+  intros. rewrite crun_cons. cbn. repeat split; auto; destruct w; auto; discriminate.
+Qed.
+Lemma cancellable_no_call : forall idv, cresumed (crun idv []) = 0%nat.
+Proof. reflexivity. Qed.
+
+(* ------------------------------------------------------------------ final statements (code as regenerated) *)
+Definition Reach (v0 : Z) (cps : list (list op)) (kps : list (nat * list (Z * bool))) (s : st) : Prop :=
+  reachable st (step gen_cfg) (init v0 cps kps) s.
+
+Lemma reach_inv : forall v0 cps kps s, Reach v0 cps kps s -> Inv s.
+Proof. unfold Reach. rewrite gen_cfg_fixed. apply reachable_inv. Qed.
+
+Lemma inv_watake : forall s t pend taken n, Inv s -> cst s t = WATake pend taken -> In n pend ->
+  (n < nslots s)%nat /\ ((sst (slot_at s n) = SQueued /\ take_ok s n (nidv (slot_at s n)) = true) \/ exists t', cst s t' = CKLock n).
+Proof.
+  intros s t pend taken n I Hp Hin.
+  assert (Hv : In n (vis s)).
+  { destruct (i_thread _ I t) as (_ & _ & _ & _ & E). rewrite Hp in E. unfold vis. rewrite E; [|destruct pend; [destruct Hin|discriminate]].
+    rewrite Hp. apply in_app_iff. auto. }
+  destruct (i_vis _ I n Hv) as [Hn [Hq|[t' Hc]]]; split; auto.
+  - left. split; auto. pose proof (i_slot _ I n Hn) as S. unfold slot_ok in S. rewrite Hq in S. apply take_ok_spec. tauto.
+  - right. exists t'. pose proof (i_slot _ I n Hn) as S. unfold slot_ok in S. rewrite Hc in S. tauto.
+Qed.
+
+Theorem t_resume_once : forall v0 cps kps s, Reach v0 cps kps s -> bad s = 0%nat /\ NoDup (map fst (rlog s)).
+Proof. intros. pose proof (reach_inv _ _ _ _ H) as I. split; [apply (i_bad _ I) | apply (i_log_nodup _ I)]. Qed.
+
+Theorem t_resumer_owns : forall v0 cps kps s t n, Reach v0 cps kps s -> In n (held_pc (cst s t)) ->
+  kstat s (nco (slot_at s n)) = KSusp (nwi (slot_at s n)) n /\ (forall t', In n (owned_pc (cst s t')) -> t' = t).
+Proof.
+  intros. pose proof (reach_inv _ _ _ _ H) as I. split; [apply (inv_held_suspended s t n I H0)|].
+  intros t' H'. eapply inv_one_owner; eauto. unfold owned_pc. apply in_app_iff. auto.
+Qed.
+
+Theorem t_on_executor : forall v0 cps kps s i j e, Reach v0 cps kps s -> In (i, j, e) (rlog s) -> e = kex s i.
+Proof. intros. pose proof (reach_inv _ _ _ _ H) as I. destruct (i_log _ I _ H0) as [L _]. exact L. Qed.
+
+Theorem t_quiescent : forall v0 cps kps s, Reach v0 cps kps s -> quiescent s = true ->
+  (forall n, (n < nslots s)%nat ->
+     In n (freel s) \/
+     (In n (lst s) /\ take_ok s n (nidv (slot_at s n)) = true /\
+      kstat s (nco (slot_at s n)) = KSusp (nwi (slot_at s n)) n)) /\
+  (forall i j n, kstat s i = KSusp j n ->
+     In n (lst s) /\ take_ok s n (nidv (slot_at s n)) = true /\ nco (slot_at s n) = i /\ nwi (slot_at s n) = j).
+Proof. intros. apply inv_quiescent; auto. eapply reach_inv; eauto. Qed.
+
+Theorem t_wake_one_zero : forall s t cl s' cl',
+  nth_error (clients s) t = Some cl -> step_client gen_cfg s t cl = Some s' ->
+  ((cpcv cl = CIdle /\ nth_error (cprog cl) (copi cl) = Some OWake1) \/ exists n, cpcv cl = W1Take n) ->
+  nth_error (clients s') t = Some cl' -> cres cl' = cres cl ++ [RW1 0] -> lst s' = [].
+Proof. rewrite gen_cfg_fixed. exact wake_one_zero_list_empty. Qed.
+
+Theorem t_failed_take : forall v0 cps kps s t n, Reach v0 cps kps s ->
+  (cst s t = W1Take n \/ exists r taken, cst s t = WATake (n :: r) taken) ->
+  take_ok s n (nidv (slot_at s n)) = false -> exists t', cst s t' = CKLock n.
+Proof. intros. eapply inv_failed_take; eauto. eapply reach_inv; eauto. Qed.
+
+Theorem t_wake_all : forall v0 cps kps,
+  (forall s t cl s', step_client gen_cfg s t cl = Some s' -> cpcv cl = CIdle ->
+     nth_error (cprog cl) (copi cl) = Some OWakeAll -> lst s' = []) /\
+  (forall s t pend taken n, Reach v0 cps kps s -> cst s t = WATake pend taken ->
+     (In n pend -> (n < nslots s)%nat /\
+        ((sst (slot_at s n) = SQueued /\ take_ok s n (nidv (slot_at s n)) = true) \/ exists t', cst s t' = CKLock n)) /\
+     (In n taken -> kstat s (nco (slot_at s n)) = KSusp (nwi (slot_at s n)) n)).
+Proof.
+  intros. split.
+  - rewrite gen_cfg_fixed. exact wake_all_detaches.
+  - intros s t pend taken n R Hp. pose proof (reach_inv _ _ _ _ R) as I. split.
+    + intro Hin. eapply inv_watake; eauto.
+    + intro Hin. apply (inv_held_suspended s t n I). rewrite Hp. exact Hin.
+Qed.
+
+Theorem t_nonmatching : forall s i k j n x tok s',
+  kstv k = KLock j n -> nth_error (kprog k) j = Some (x, tok) -> x <> fv s -> (n < nslots s)%nat ->
+  step_coro gen_cfg s i k = Some s' ->
+  s' = set_coro (release (take s n SFree) n) i (set_kst k (KReady (S j))) /\ In n (freel s') /\
+  lst s' = lst s /\ tokens s' = tokens s.
+Proof. rewrite gen_cfg_fixed. exact nonmatching_wait. Qed.
+
+(* regression witnesses: the code before the three repairs (cfg_asis) *)
+Lemma asis_leak : exists sch,
+  let s := run st (step cfg_asis) (init 1 [] [(0%nat, [(0, false)])]) sch in
+  quiescent s = true /\ map kstv (coros s) = [KDone] /\ in_use s = 1%nat /\ lst s = [].
+Proof. exists [0; 0; 0]%nat. vm_compute. auto. Qed.
+Lemma asis_wake_one : exists sch,
+  let s := run st (step cfg_asis) (init 1 [[OCancel 1 0]; [OWake1]] [(0%nat, [(1, true)]); (0%nat, [(1, true)])]) sch in
+  map cres (clients s) = [[]; [RW1 0]] /\ lst s = [0%nat] /\ take_ok s 0 (nidv (slot_at s 0)) = true.
+Proof. exists [2; 2; 3; 3; 0; 1; 1]%nat. vm_compute. auto. Qed.
+Lemma asis_wake_all : exists sch,
+  let s := run st (step cfg_asis) (init 1 [[OWakeAll]] [(0%nat, [(1, false)]); (0%nat, [(1, false); (1, false)])]) sch in
+  quiescent s = true /\ map cres (clients s) = [[RWA 1]] /\ map kstv (coros s) = [KSusp 0 0; KSusp 1 1] /\ lst s = [1%nat].
+Proof. exists [1; 1; 2; 2; 0; 0; 0; 0; 0; 2; 2; 2; 0]%nat. vm_compute. auto. Qed.
